@@ -1,6 +1,8 @@
 package main
 
 import (
+	"fmt"
+	"strconv"
 	"verifharness/docs"
 	"verifharness/gen"
 	"verifharness/mon"
@@ -77,7 +79,7 @@ func c02Count(maxSteps int) int {
 func c02(r *mon.Run) {
 	maxSteps := tierPick(r, 3, 4)
 	r.Rule = "exhaustive: every chain of 1..K steps (K=3 quick, 4 thorough) over 17 steps {.a .\"a\" .b [0] [-1] [*] [] [?a] [?@] .* [1:] [::-1] .[a,b] .{x:a} .type(@) .to_string(@) .not_null(a,'z')} x heads {a, @, bare} x terminators {end, | [0], (…).a, (…)[0], || b, == b, evaluated twice [c, c]} x a 35-document universe (empty / null-containing / heterogeneous / nested arrays and objects); " +
-		"plus seeded random nested projections with filters and slices on random typed documents; plus every chain of <= 4 navigational steps on 6 documents given as Go-typed slices ([][][]float64, [][]string, []map…; the reflection twins of the projection loops) against the model on the generic form. Oracle: ref.RefSet with member-order nondeterminism as a result set. Non-trivial = distinct (expression, document) with a projection whose expected result is a non-empty array, or null because the left side has the wrong type (counted separately)."
+		"plus every chain of 1-2 steps over arrays of 15...1025 elements (thorough to 65536) in four element patterns; plus seeded random nested projections with filters and slices on random typed documents; plus every chain of <= 4 navigational steps on 6 documents given as Go-typed slices ([][][]float64, [][]string, []map…; the reflection twins of the projection loops) against the model on the generic form. Oracle: ref.RefSet with member-order nondeterminism as a result set. Non-trivial = distinct (expression, document) with a projection whose expected result is a non-empty array, or null because the left side has the wrong type (counted separately)."
 	r.Exhaustive = true
 	r.Floor = 5000
 	r.Assumptions = []string{"projection scope follows the binding powers of C03 (flatten 9 < wildcard 20 < filter 21 < dot 40 < bracket 55): a projection's right-hand side takes every following step that binds tighter than the projecting operator",
@@ -200,7 +202,59 @@ func c02(r *mon.Run) {
 			}
 			c02Account(t, tree, expr, doc, res, i)
 		}}
-	r.Exec(exh, rnd, typed)
+	// long arrays: every chain of 1-2 steps over arrays whose length sits on and around internal thresholds
+	// (pre-sized result buffers, chunked loops), in four element patterns (objects, nested lists, every third
+	// element null, mixed types)
+	llens := []int{15, 16, 17, 31, 32, 33, 63, 64, 65, 127, 128, 129, 255, 256, 257, 1000, 1024, 1025}
+	if r.Tier == "thorough" {
+		llens = append(llens, 4095, 4096, 4097, 10000, 65536)
+	}
+	const lpat = 4
+	longDoc := func(n, pat int) interface{} {
+		a := make([]interface{}, n)
+		for i := range a {
+			switch pat {
+			case 0:
+				a[i] = map[string]interface{}{"a": float64(i), "b": []interface{}{float64(i), nil}}
+			case 1:
+				a[i] = []interface{}{float64(i), []interface{}{float64(-i)}}
+			case 2:
+				a[i] = map[string]interface{}{"a": float64(i)}
+				if i%3 == 1 {
+					a[i] = nil
+				} else if i%3 == 2 {
+					a[i] = map[string]interface{}{"a": nil, "b": float64(i)}
+				}
+			default:
+				a[i] = []interface{}{float64(i), "s", nil, true, []interface{}{}, map[string]interface{}{"a": float64(i)}, map[string]interface{}{}, false}[i%8]
+			}
+		}
+		return map[string]interface{}{"a": a, "b": float64(n)}
+	}
+	S := len(c02Steps)
+	nl := (S + S*S) * len(llens) * lpat
+	lng := mon.Workload{Name: "long-array-projections", N: nl, Batch: 200,
+		Describe: func(i int) string { return fmt.Sprint("long-array-projections case ", i) },
+		Do: func(i int, t *mon.Tally) {
+			k := i / (len(llens) * lpat)
+			n := llens[i/lpat%len(llens)]
+			var steps []gen.Step
+			if k < S {
+				steps = []gen.Step{c02Steps[k]}
+			} else {
+				steps = []gen.Step{c02Steps[(k-S)/S], c02Steps[(k-S)%S]}
+			}
+			tree := gen.Chain(gen.Field("a"), steps...)
+			doc := longDoc(n, i%lpat)
+			expr := gen.SpellTight(tree)
+			cx := &caseCtx{r, t, "long-array-projections", i}
+			res, _, _ := cx.runOne(tree, expr, doc)
+			if nonNull(res) && gen.HasProjection(tree) {
+				t.Nontrivial("long:" + strconv.Itoa(i))
+				t.Count("long-array projections with a non-null expected result")
+			}
+		}}
+	r.Exec(exh, rnd, typed, lng)
 }
 
 func c02Account(t *mon.Tally, tree *gen.Expr, expr string, doc interface{}, res ref.Result, i int) {
